@@ -7,7 +7,7 @@ CONSTANTS
   FixErr = TRUE
   FixNoPw = TRUE
   FixEnc = TRUE
-  Reuse = FALSE
+  Reuse = TRUE
   Doms = {"same", "tbl", "realm", "both"}
   Pres2 = {31, 15}
   Extras2 = {"none"}
